@@ -1,6 +1,6 @@
 (* C13 — A bad Spec file or directory affects only itself and is reported. *)
 From Coq Require Import String Ascii List Bool Arith.
-From CDI Require Import Base SpecModel Parser Paths Cache CacheProofs.
+From CDI Require Import Base SpecModel Parser Paths Cache CacheProofs CacheErrors.
 Import ListNotations.
 Open Scope string_scope.
 
@@ -31,9 +31,24 @@ Print Assumptions C13_refresh_fails_iff.
 Theorem C13_memoryless : forall fs1 fs2, scan fs1 = scan fs2 -> refresh fs1 = refresh fs2.
 Proof. exact refresh_memoryless. Qed.
 Print Assumptions C13_memoryless.
-(* C13_errors_exact_partial: that the report contains NOTHING BUT the failing files and the files in a same-priority
-   conflict (expected_error_keys) is evaluated by the judge on every observed report (oracle01) and on the model
-   (corr01); it is not yet a theorem. *)
+(* the report contains EXACTLY the failing files and the loaded files that are in a same-priority conflict (another
+   loaded file of the same priority defines one of their devices): nothing else ever has an entry *)
+Theorem C13_errors_exact : forall fs p,
+  unique_names (scan fs) -> (In p (error_keys (refresh fs)) <-> In p (expected_error_keys (scan fs))).
+Proof. exact errors_exact_fs. Qed.
+Print Assumptions C13_errors_exact.
+(* hence: an explicit refresh returns no error when every directory is readable or absent and every Spec file is valid
+   and unconflicted *)
+Theorem C13_all_good_no_error : forall fs,
+  unique_names (scan fs) -> expected_error_keys (scan fs) = [] -> refresh_fails (refresh fs) = false.
+Proof.
+  intros fs U H. destruct (refresh_fails (refresh fs)) eqn:R; [|reflexivity].
+  apply refresh_fails_iff in R. exfalso. apply R.
+  destruct (error_keys (refresh fs)) as [|p r] eqn:K; [reflexivity|].
+  assert (X : In p (expected_error_keys (scan fs))) by (apply errors_exact_fs; [exact U|rewrite K; left; reflexivity]).
+  rewrite H in X. destruct X.
+Qed.
+Print Assumptions C13_all_good_no_error.
 
 Example C13_example :
   let fs := [("/a", DUnscannable); ("/b", DDir [("bad.json", EFile None); ("ok.json", EFile (Some (mkSpec "0.3.0" "v.com/c" [] [mkDevice "d" [] (mkEdits ["A=1"] [] [] [] None [])] empty_edits)))]); ("/c", DMissing)] in
